@@ -167,7 +167,7 @@ fn main() {
                 }
                 (ops, outs, viols, sched::SchedStats { cases: n, schedules: n, nonlinearizable_known: Default::default(), distinct_outcomes: Default::default(), samples: vec![] })
             } else {
-                sched::run_suite(&profile, seed, count, per_case, trace())
+                if profile == "C14" { sched::run_policy_suite(seed, count, per_case, trace()) } else { sched::run_suite(&profile, seed, count, per_case, trace()) }
             };
             std::fs::write(format!("{}/ops.txt", out), ops.join("\n") + "\n").unwrap();
             std::fs::write(format!("{}/impl.txt", out), outs.join("\n") + "\n").unwrap();
